@@ -11,9 +11,15 @@
   configuration (including negative `MaxPacketErrors`) and every history of ANY length (induction over
   the history).  "Datagram" means the datagram as the loop sees it: its first 4096 bytes (`readBuf`).
   "Authentic" is `RV.isAuthenticResponse H` (equal to the RFC formula by C03.isAuthenticResponse_iff).
+
+  Section "Machine level" (theorems 9-14) lifts them to the event machine `RV.Exchange.step` — the
+  whole call, with its dial, context, ticker, helper and read-error events — through the refinement
+  `machine_refines_recvLoop`: in every run the machine's state is determined by `recvLoop` on the
+  datagrams the machine actually read (`RV.Exchange.delivered`).
 -/
 import RV.Model.Client
 import RV.Proofs.Client
+import RV.Proofs.ClientRefine
 namespace RV.C05
 open RV RV.Client
 
@@ -138,6 +144,182 @@ theorem recvLoop_eq_spec (hist : List Bytes) :
     recvLoop H cfg wire secret hist = Spec.outcome H cfg wire secret hist := by
   exact recvLoop_eq_outcome H cfg wire secret hist
 
+/-! ### Machine level: the same about `RV.Exchange.step`, for EVERY event sequence
+
+  `delivered H P evs` are the datagrams `conn.Read` handed to the receive loop during the run `evs`
+  (a `datagram` event while the call is in the receive loop with its conn open; `datagram` events
+  before the dial, on a conn the helper has closed, or after the return are no-ops of `step` and read
+  nothing).  `P.wireBytes` is the byte string `Encode` produced, which is every byte string the call
+  ever writes (C08 `resend_verbatim`): "the request actually sent". -/
+section machine
+open RV.Exchange
+variable (P : Params)
+
+/-- 9. REFINEMENT.  In every run, whatever the interleaving of dial results, ticks, context
+    cancellation, helper scheduling, read errors and datagrams:
+    * while dialing nothing has been read;
+    * while the call waits, `recvLoop` on the datagrams read is still `.waiting` and the machine's
+      `packetErrorCount` is their number;
+    * when the call has returned `reply p`, the datagrams read are `pre ++ [d]`, the loop was still
+      waiting after `pre` and returns `p` at `d` (index `pre.length`);
+    * the call has returned the packet error `e` likewise with `.failed`;
+    * with any other result (encode, dial, network, context error) the loop was still waiting. -/
+theorem machine_refines_recvLoop (evs : List Event) :
+    match (reach H P evs).phase with
+    | .dialing => delivered H P evs = [] ∧ (reach H P evs).errCount = 0
+    | .waiting =>
+      recvLoop H P.cfg P.wireBytes P.secret (delivered H P evs) = .waiting ∧
+        (reach H P evs).errCount = ((delivered H P evs).length : Int)
+    | .returned (.reply p) =>
+      ∃ pre d, delivered H P evs = pre ++ [d] ∧
+        recvLoop H P.cfg P.wireBytes P.secret pre = .waiting ∧
+        recvLoop H P.cfg P.wireBytes P.secret (delivered H P evs) = .returned pre.length p
+    | .returned (.pktErr e) =>
+      ∃ pre d, delivered H P evs = pre ++ [d] ∧
+        recvLoop H P.cfg P.wireBytes P.secret pre = .waiting ∧
+        recvLoop H P.cfg P.wireBytes P.secret (delivered H P evs) = .failed pre.length e
+    | .returned _ => recvLoop H P.cfg P.wireBytes P.secret (delivered H P evs) = .waiting := by
+  exact RV.Exchange.refines_reach H P evs
+
+/-- … and the machine restricted to datagram events (after the dial) IS `recvLoop`. -/
+theorem machine_on_datagrams_is_recvLoop (w : Bytes) (hw : P.wire = .ok w) (hist : List Bytes) :
+    (reach H P (.dialOk :: hist.map .datagram)).phase =
+      phaseOf (recvLoop H P.cfg P.wireBytes P.secret hist) := by
+  have h0 : step H P (init P) .dialOk =
+      { phase := .waiting, sent := [P.wireBytes], connClosed := false, helperAlive := true,
+        ctxDone := false, errCount := 0 } := by
+    simp only [init, hw]
+    unfold step
+    rfl
+  unfold reach
+  rw [RV.Exchange.run_cons, h0]
+  exact RV.Exchange.run_datagrams H P _ hist 0 rfl rfl
+
+/-- 10. If the call returns a packet `p` — in ANY run — then the datagrams it read are `pre ++ [d]`
+    where: `p` is the parse of `d`; `d` is authentic for the request actually sent and the packet's
+    secret, unless `InsecureSkipVerify`; every datagram read before `d` is unacceptable (so `d` is the
+    FIRST acceptable datagram read); and with a positive `MaxPacketErrors` fewer than that many
+    unacceptable datagrams were read before it.  The request was encoded and written (at least once),
+    and everything written is that one byte string. -/
+theorem exchange_reply_sound (evs : List Event) (p : Packet)
+    (h : (reach H P evs).phase = .returned (.reply p)) :
+    ∃ pre d, delivered H P evs = pre ++ [d] ∧
+      parse (readBuf d) P.secret = .ok p ∧
+      (P.cfg.skipVerify = true ∨ isAuthenticResponse H (readBuf d) P.wireBytes P.secret = true) ∧
+      (∀ d', d' ∈ pre → Spec.acceptable H P.cfg P.wireBytes P.secret d' = false) ∧
+      (P.cfg.maxErrors > 0 → (pre.length : Int) < P.cfg.maxErrors) ∧
+      P.wire = .ok P.wireBytes ∧ (reach H P evs).sent ≠ [] ∧
+      (∀ x, x ∈ (reach H P evs).sent → x = P.wireBytes) := by
+  have href := RV.Exchange.refines_reach H P evs
+  unfold RV.Exchange.Refines RV.Exchange.RefinesAt at href
+  rw [h] at href
+  obtain ⟨pre, d, hd, hpre, hret⟩ := href
+  obtain ⟨d', hd', hp, hv⟩ := returned_sound H P.cfg P.wireBytes P.secret _ _ p hret
+  have hdd : d' = d := by
+    rw [hd] at hd'
+    simpa using hd'.symm
+  subst hdd
+  obtain ⟨hall, hcnt⟩ := (waiting_iff H P.cfg P.wireBytes P.secret pre).1 hpre
+  exact ⟨pre, d', hd, hp, hv, hall, hcnt,
+    RV.Exchange.wire_ok_of_not_encodeErr H P evs (by rw [h]; simp),
+    (RV.Exchange.sent_nonempty H P evs).2.1 p h,
+    (RV.Exchange.inv_run H P evs).sent_wire⟩
+
+/-- 11. If the call returns the packet error `e` then `MaxPacketErrors` is positive, exactly that many
+    datagrams were read, every one of them unacceptable (the count has reached the budget, and did so
+    at the last one), and `e` is the last one's own error (its parse error, or
+    NonAuthenticResponseError when it parses but does not verify). -/
+theorem exchange_pktErr_sound (evs : List Event) (e : ErrClass)
+    (h : (reach H P evs).phase = .returned (.pktErr e)) :
+    P.cfg.maxErrors > 0 ∧ ((delivered H P evs).length : Int) = P.cfg.maxErrors ∧
+      (∀ d, d ∈ delivered H P evs → Spec.acceptable H P.cfg P.wireBytes P.secret d = false) ∧
+      ∃ pre d, delivered H P evs = pre ++ [d] ∧ e = Spec.errClass P.secret d := by
+  have href := RV.Exchange.refines_reach H P evs
+  unfold RV.Exchange.Refines RV.Exchange.RefinesAt at href
+  rw [h] at href
+  obtain ⟨pre, d, hd, hpre, hf⟩ := href
+  obtain ⟨hm, d', hd', hall, hi, he⟩ := (failed_iff H P.cfg P.wireBytes P.secret _ _ e).1 hf
+  have hdd : d' = d := by
+    rw [hd] at hd'
+    simpa using hd'.symm
+  subst hdd
+  refine ⟨hm, by rw [hd]; simp; omega, ?_, pre, d', hd, he⟩
+  intro x hx
+  obtain ⟨n, hn, hxn⟩ := List.getElem_of_mem hx
+  refine hall n x ?_ (by rw [← hxn]; exact List.getElem?_eq_getElem hn)
+  rw [hd] at hn; simp at hn; omega
+
+/-- 12. With `MaxPacketErrors ≤ 0` no run ever ends with a packet error, however many bad datagrams
+    are read. -/
+theorem exchange_zero_budget_never_pktErr (h0 : P.cfg.maxErrors ≤ 0) (evs : List Event) (e : ErrClass) :
+    (reach H P evs).phase ≠ .returned (.pktErr e) := by
+  intro h
+  have := (exchange_pktErr_sound H P evs e h).1
+  omega
+
+/-- 13. While the call is still waiting, everything read so far was unacceptable, the machine's
+    counter is the number of datagrams read, and a positive budget is not yet reached. -/
+theorem exchange_waiting_sound (evs : List Event) (h : (reach H P evs).phase = .waiting) :
+    (∀ d, d ∈ delivered H P evs → Spec.acceptable H P.cfg P.wireBytes P.secret d = false) ∧
+    (reach H P evs).errCount = ((delivered H P evs).length : Int) ∧
+    (P.cfg.maxErrors > 0 → ((delivered H P evs).length : Int) < P.cfg.maxErrors) := by
+  have href := RV.Exchange.refines_reach H P evs
+  unfold RV.Exchange.Refines RV.Exchange.RefinesAt at href
+  rw [h] at href
+  obtain ⟨hw, hc⟩ := href
+  obtain ⟨hall, hcnt⟩ := (waiting_iff H P.cfg P.wireBytes P.secret _).1 hw
+  exact ⟨hall, hc, hcnt⟩
+
+/-- 14. "Exactly when": a datagram delivered to a waiting call with an open conn ends the call with the
+    reply if it is acceptable; otherwise it is counted, and the call fails — with that datagram's
+    error — iff the budget is positive and the count has now reached it; otherwise it keeps waiting. -/
+theorem exchange_on_delivery (pre : List Event) (d : Bytes)
+    (hw : (reach H P pre).phase = .waiting) (hc : (reach H P pre).connClosed = false) :
+    delivered H P (pre ++ [.datagram d]) = delivered H P pre ++ [d] ∧
+    (Spec.acceptable H P.cfg P.wireBytes P.secret d = true →
+      ∃ p, parse (readBuf d) P.secret = .ok p ∧
+        (reach H P (pre ++ [.datagram d])).phase = .returned (.reply p)) ∧
+    (Spec.acceptable H P.cfg P.wireBytes P.secret d = false →
+      (reach H P (pre ++ [.datagram d])).phase =
+        if P.cfg.maxErrors > 0 ∧ ((delivered H P pre).length : Int) + 1 ≥ P.cfg.maxErrors
+        then .returned (.pktErr (Spec.errClass P.secret d)) else .waiting) := by
+  obtain ⟨_, hcnt, _⟩ := exchange_waiting_sound H P pre hw
+  have hstep : reach H P (pre ++ [.datagram d]) = step H P (reach H P pre) (.datagram d) := by
+    rw [RV.Exchange.reach_append]; rfl
+  have hdel : delivered H P (pre ++ [.datagram d]) = delivered H P pre ++ [d] := by
+    have key : ∀ (s : State) (a b : List Event),
+        deliveredFrom H P s (a ++ b) = deliveredFrom H P s a ++ deliveredFrom H P (run H P s a) b := by
+      intro s a b
+      induction a generalizing s with
+      | nil => simp [deliveredFrom, RV.Exchange.run_nil]
+      | cons x xs ih => simp [deliveredFrom, RV.Exchange.run_cons, ih, List.append_assoc]
+    unfold delivered
+    rw [key]
+    have : deliveredFrom H P (run H P (init P) pre) [.datagram d] = [d] := by
+      have hw' : (run H P (init P) pre).phase = .waiting := hw
+      have hc' : (run H P (init P) pre).connClosed = false := hc
+      simp [deliveredFrom, deliveredBy, hw', hc']
+    rw [this]
+  refine ⟨hdel, ?_, ?_⟩
+  · intro ha
+    obtain ⟨p, hs, hp⟩ := step_of_acceptable H P.cfg P.wireBytes P.secret (reach H P pre).errCount d ha
+    refine ⟨p, hp, ?_⟩
+    rw [hstep, RV.Exchange.step_datagram_open H P _ d hw hc, hs]
+    rfl
+  · intro ha
+    rw [hstep, RV.Exchange.step_datagram_open H P _ d hw hc,
+      step_of_unacceptable H P.cfg P.wireBytes P.secret _ d ha, hcnt]
+    by_cases hb : P.cfg.maxErrors > 0 ∧ ((delivered H P pre).length : Int) + 1 ≥ P.cfg.maxErrors
+    · rw [if_pos hb, if_pos ((budgetReached_iff P.cfg _).2 hb)]
+      rfl
+    · rw [if_neg hb]
+      have : ¬ budgetReached P.cfg (((delivered H P pre).length : Int) + 1) = true :=
+        fun hbr => hb ((budgetReached_iff P.cfg _).1 hbr)
+      rw [if_neg this]
+      exact hw
+
+end machine
+
 /-! ### Non-vacuity (tests, evaluated by the kernel on a toy hash) -/
 section examples
 
@@ -174,6 +356,31 @@ example : returnedAt (recvLoop toyH ⟨0, true⟩ reqWire [115] [garbage, forged
 example : recvLoop toyH ⟨0, false⟩ reqWire [115] [garbage, forged, garbage, forged] = .waiting := by
   decide +kernel
 example : recvLoop toyH ⟨-1, false⟩ reqWire [115] [garbage, forged, garbage, forged] = .waiting := by
+  decide +kernel
+
+/-- machine level: the same histories, interleaved with ticks, a context cancellation and a datagram
+    on a conn the helper has already closed -/
+def PM (maxErr : Int) (skip : Bool) : RV.Exchange.Params := ⟨⟨maxErr, skip⟩, 5, .ok reqWire, [115]⟩
+open RV.Exchange in
+example : delivered toyH (PM 0 false)
+    [.datagram forged, .dialOk, .datagram garbage, .tick, .datagram forged, .ctxDone, .datagram goodReply,
+     .datagram forged] = [garbage, forged, goodReply] := by
+  decide +kernel
+open RV.Exchange in
+example : (reach toyH (PM 0 false)
+    [.datagram forged, .dialOk, .datagram garbage, .tick, .datagram forged, .ctxDone, .datagram goodReply,
+     .datagram forged]).phase =
+    phaseOf (recvLoop toyH ⟨0, false⟩ reqWire [115] [garbage, forged, goodReply]) := by
+  decide +kernel
+open RV.Exchange in
+example : (reach toyH (PM 2 false) [.dialOk, .datagram garbage, .tick, .datagram forged, .datagram goodReply]).phase =
+    .returned (.pktErr .nonAuthentic) := by
+  decide +kernel
+open RV.Exchange in
+/-- the helper closed the conn: the genuine reply is not read; the read error returns the context's error -/
+example : delivered toyH (PM 0 false) [.dialOk, .ctxDone, .helperObservesCtx, .datagram goodReply, .readError] = [] ∧
+    (reach toyH (PM 0 false) [.dialOk, .ctxDone, .helperObservesCtx, .datagram goodReply, .readError]).phase =
+      .returned .ctxErr := by
   decide +kernel
 
 end examples
